@@ -44,6 +44,8 @@ FailedConv(r) ==
      (IF r.str_bvector = Str(a, n) THEN {} ELSE {"bvector_to_pauli_string"})
 \cup (IF r.str_dense = Str(a, n) THEN {} ELSE {"bsf_to_pauli_dense"})
 \cup (IF r.str_sparse = Str(a, n) THEN {} ELSE {"bsf_to_pauli_sparse"})
+\cup (IF r.str_sparse_unsorted = Str(a, n) THEN {} ELSE {"bsf_to_pauli_sparse_row_with_unsorted_indices"})
+\cup (IF r.wt_sparse_unsorted = Wt(a) THEN {} ELSE {"bsf_wt_sparse_row_with_unsorted_indices"})
 \cup (IF r.str_stack = Str(a, n) THEN {} ELSE {"bsf_to_pauli_stacked"})
 \cup (IF AsOp(r.from_str) = a THEN {} ELSE {"pauli_to_bsf"})
 \cup (IF AsOp(r.from_str2) = a THEN {} ELSE {"pauli_string_to_bvector"})
